@@ -27,11 +27,38 @@
      half-space projection formula; uniqueness / distance form of "nearest".
    * C08_pwl_feasible_fixed: re-export of the C04 theorem for the PWL calibrator.
 
+   * Convergence clause, the quantitative core of the Boyle-Dykstra argument
+     (Proofs/DykstraBound.v abstract, Proofs/LatticeDykstraBound.v for the model;
+     pure algebra + induction over the steps, no limits).  For nearest-point maps
+     onto sets with a common point Y (model: the six exact families, Y feasible):
+     - C08_dykstra_identity: the exact identity  |x0-Y|^2 = |xn-Y|^2 + (sum of all
+       squared step movements) + 2 (step slacks >= 0) + 2 (dual terms >= 0);
+     - BOUNDEDNESS  C08_abstract_never_farther, C08_sweep_never_farther,
+       C08_dykstra_never_farther_from_feasible: after ANY number of sweeps the
+       kernel is not farther from ANY feasible kernel than the start was;
+     - SUMMABLE MOVEMENT  C08_abstract_moves_summable, C08_sweep_moves_summable,
+       C08_dykstra_moves_summable: dist2(W_n,Y) + (squared movement of sweeps
+       1..n) <= dist2(W_0,Y), uniformly in n;
+     - STALLING RATE  C08_abstract_stalls, C08_dykstra_stalls: among the first n
+       sweeps one moves by at most dist2(W_0,Y)/n (squared);
+     - C08_abstract_stalled_is_fixpoint, C08_stalled_sweep_is_fixpoint,
+       C08_dykstra_stalled_nearest: a sweep with zero movement reproduces every
+       stored change, hence (fixpoint => nearest) the state is feasible and the
+       Euclidean-nearest feasible kernel.
+     The model-level bounds need NO "no constraint listed twice" hypothesis (the
+     potential sums over distinct keys) and no trap_sizes_ok.
+
    NOT proved (by design, DESIGN.md section 7/C08):
-   * convergence of the iterates (violation -> 0 as num_iterations grows;
-     Boyle-Dykstra 1986) and any rate, hence also the closeness of the strict
-     layer constraint to the nearest point at finite n: tested numerically by
-     harness/props/c08.py against an exact solver, not proved;
+   * existence of the limit of the iterates, that the limit is the nearest
+     point, and that the violation tends to 0 (Boyle-Dykstra 1986).  What is
+     missing after the theorems above are the analytic steps of that proof: a
+     convergent subsequence of the bounded iterates (compactness over the
+     reals; the model's iterates are rationals and the limit is in general not
+     reached at finite n), the liminf argument on the dual terms, and the
+     identification of the limit through the variational inequality.  Hence
+     also the closeness of the strict layer constraint to the nearest point at
+     finite n.  Cited, and tested numerically by harness/props/c08.py against
+     an exact solver;
    * nearest-point theorems for the group updates of range dominance and joint
      unimodality (the property claims the nearest point only for the other six
      families; for these two only feasible => fixed and properness are proved);
@@ -51,9 +78,13 @@
    units, six families incl. range dominance, kernel i + u), feasible_fixed_hyps_B (3x3, 2 units,
    unimodality + joint unimodality, valley kernel), fixpoint_nearest_hyps_C (a
    kernel that moves and reaches a fixpoint after one sweep; its constraint
-   lists are empty, hence duplicate-free) in Proofs/LatticeDykstra.v, and
-   asweep_fixpoint_hyps (abstract theorem) in Proofs/DykstraTheory.v. *)
+   lists are empty, hence duplicate-free) in Proofs/LatticeDykstra.v,
+   asweep_fixpoint_hyps (abstract theorem) in Proofs/DykstraTheory.v,
+   dykstra_bound_hyps (two half-spaces in Q^2: a strict and a tight instance of
+   the movement bound) in Proofs/DykstraBound.v and never_farther_hyps_D (model,
+   strict and tight) in Proofs/LatticeDykstraBound.v. *)
 From TFL Require Import Model.LatticeDykstra Proofs.DykstraTheory Proofs.LatticeDykstra.
+From TFL Require Import Proofs.DykstraBound Proofs.LatticeDykstraBound.
 From TFL Require Model.PWLProject Proofs.PWLProject.
 Open Scope Q_scope.
 
@@ -240,3 +271,129 @@ Theorem C08_pwl_feasible_fixed : forall c n bias h,
   qleq (PWLProject.pwl_project_col c (bias :: h)) (bias :: h).
 Proof. exact PWLProject.pwl_feasible_fixed. Qed.
 Print Assumptions C08_pwl_feasible_fixed.
+
+(* 7. The quantitative core of the Boyle-Dykstra convergence argument, abstract.
+   d2 I f g = ip I (f - g) (f - g) (squared distance);
+   sgood I y s := is_proj I (s_C s) (s_P s) /\ s_C s y  (nearest-point map, y in the set);
+   aloop n (x, sl) = n times asweep;  amoves I sl x = sum over the steps of one
+   sweep of d2 (point after, point before);  aloop_moves I n st = the list of
+   amoves of sweeps 1..n;  qnat n = n as a rational.
+   Tracked form (ghost state, the point p produced last by every slot):
+   track0 x0 sl = (x0, [(s, x0) | s in sl]);  tloop = aloop on tracked slots
+   (untrack forgets the p);  tloop_slacks I n st = per sweep, the sum over its
+   steps of <e_old, x_new - p_old>;  tsum I y tl = sum_i <e_i, y - p_i>. *)
+Theorem C08_dykstra_identity : forall (A : Type) (I : list A) (y x0 : A -> Q) (sl : list (slot (A:=A))),
+  (forall s, In s sl -> sgood I y s) -> (forall s, In s sl -> veq I (s_e s) vzero) ->
+  forall n : nat,
+  let st := tloop n (track0 x0 sl) in
+  untrack st = aloop n (x0, sl) /\
+  (forall m, In m (tloop_slacks I n (track0 x0 sl)) -> 0 <= m) /\
+  (forall t, In t (snd st) -> 0 <= ip I (s_e (fst t)) (vsub y (snd t))) /\
+  d2 I x0 y == d2 I (fst st) y + qsum (aloop_moves I n (x0, sl)) +
+               2 * qsum (tloop_slacks I n (track0 x0 sl)) + 2 * tsum I y (snd st).
+Proof. exact (@dykstra_identity). Qed.
+Print Assumptions C08_dykstra_identity.
+
+(* (a) Fejer-type bound: never farther from a common point than the start *)
+Theorem C08_abstract_never_farther : forall (A : Type) (I : list A) (y x0 : A -> Q) (sl : list (slot (A:=A))),
+  (forall s, In s sl -> sgood I y s) -> (forall s, In s sl -> veq I (s_e s) vzero) ->
+  forall n : nat, d2 I (fst (aloop n (x0, sl))) y <= d2 I x0 y.
+Proof. exact (@aloop_never_farther). Qed.
+Print Assumptions C08_abstract_never_farther.
+
+(* (b) the squared movements of all sweeps are summable, uniformly in n *)
+Theorem C08_abstract_moves_summable : forall (A : Type) (I : list A) (y x0 : A -> Q) (sl : list (slot (A:=A))),
+  (forall s, In s sl -> sgood I y s) -> (forall s, In s sl -> veq I (s_e s) vzero) ->
+  forall n : nat, d2 I (fst (aloop n (x0, sl))) y + qsum (aloop_moves I n (x0, sl)) <= d2 I x0 y.
+Proof. exact (@aloop_moves_summable). Qed.
+Print Assumptions C08_abstract_moves_summable.
+
+(* ... hence among the first n sweeps one has squared movement <= |x0 - y|^2 / n *)
+Theorem C08_abstract_stalls : forall (A : Type) (I : list A) (y x0 : A -> Q) (sl : list (slot (A:=A))),
+  (forall s, In s sl -> sgood I y s) -> (forall s, In s sl -> veq I (s_e s) vzero) ->
+  forall n : nat, (1 <= n)%nat ->
+  exists k, (k < n)%nat /\ amoves I (snd (aloop k (x0, sl))) (fst (aloop k (x0, sl))) * qnat n <= d2 I x0 y.
+Proof. exact (@aloop_stalls). Qed.
+Print Assumptions C08_abstract_stalls.
+
+(* a sweep without movement reproduces every stored change: the hypothesis of
+   C08_fixpoint_nearest *)
+Theorem C08_abstract_stalled_is_fixpoint : forall (A : Type) (I : list A) (sl : list (slot (A:=A))) (x : A -> Q),
+  amoves I sl x <= 0 ->
+  veq I (fst (asweep sl x)) x /\ Forall2 (fun s s' => veq I (s_e s') (s_e s)) sl (snd (asweep sl x)).
+Proof. exact (@amoves_zero_fixpoint). Qed.
+Print Assumptions C08_abstract_stalled_is_fixpoint.
+
+(* 8. The same for the model.  dist2 sh f g = d2 (all_idx sh) f g;
+   dyk_moves sh ops st = sum over the group steps of one sweep from st of
+   dist2 (kernel after, kernel before);  dyk_loop_moves sh ops n st = the list of
+   dyk_moves of sweeps 1..n.
+   Generic: ANY keyed maps (duplicate keys allowed), each a nearest-point map
+   onto the set named by its key, Y in all these sets. *)
+Theorem C08_sweep_moves_summable :
+  forall sh (ops : list (key * (tens -> tens))) (Cof : key -> tens -> Prop) (Y W0 : tens) (n : nat),
+  (forall kop, In kop ops -> is_proj (all_idx sh) (Cof (fst kop)) (snd kop) /\ Cof (fst kop) Y) ->
+  dist2 sh (fst (dyk_loop sh ops n (W0, []))) Y + qsum (dyk_loop_moves sh ops n (W0, [])) <= dist2 sh W0 Y.
+Proof. exact dyk_loop_bound. Qed.
+Print Assumptions C08_sweep_moves_summable.
+
+Theorem C08_sweep_never_farther :
+  forall sh (ops : list (key * (tens -> tens))) (Cof : key -> tens -> Prop) (Y W0 : tens) (n : nat),
+  (forall kop, In kop ops -> is_proj (all_idx sh) (Cof (fst kop)) (snd kop) /\ Cof (fst kop) Y) ->
+  dist2 sh (fst (dyk_loop sh ops n (W0, []))) Y <= dist2 sh W0 Y.
+Proof. exact dyk_loop_never_farther. Qed.
+Print Assumptions C08_sweep_never_farther.
+
+(* BOUNDEDNESS for project_by_dykstra: every configuration of the six exact
+   families (any combination, any units, constraints may be listed twice), every
+   kernel W0, every feasible kernel Y: after any number n of sweeps, and for the
+   result of project_by_dykstra itself (k_iters c sweeps, early returns
+   included), the kernel is at most as far from Y as W0 was. *)
+Theorem C08_dykstra_never_farther_from_feasible : forall (c : dyk_cfg) (W0 Y : tens),
+  dyk_cfg_ok c -> exact_families c -> dyk_feasible c Y ->
+  (forall n, dist2 (k_shape c) (fst (dyk_loop (k_shape c) (group_ops c) n (W0, []))) Y <= dist2 (k_shape c) W0 Y) /\
+  dist2 (k_shape c) (project_by_dykstra c W0) Y <= dist2 (k_shape c) W0 Y.
+Proof. exact dykstra_never_farther_from_feasible. Qed.
+Print Assumptions C08_dykstra_never_farther_from_feasible.
+
+(* SUMMABLE MOVEMENT for the configured group maps *)
+Theorem C08_dykstra_moves_summable : forall (c : dyk_cfg) (W0 Y : tens) (n : nat),
+  dyk_cfg_ok c -> exact_families c -> dyk_feasible c Y ->
+  let sh := k_shape c in
+  dist2 sh (fst (dyk_loop sh (group_ops c) n (W0, []))) Y + qsum (dyk_loop_moves sh (group_ops c) n (W0, []))
+    <= dist2 sh W0 Y.
+Proof. exact dykstra_moves_summable. Qed.
+Print Assumptions C08_dykstra_moves_summable.
+
+(* STALLING RATE: among the first n sweeps, sweep number k+1 (from the state after
+   k sweeps) has squared movement * n <= dist2 (W0, Y) *)
+Theorem C08_dykstra_stalls : forall (c : dyk_cfg) (W0 Y : tens) (n : nat),
+  dyk_cfg_ok c -> exact_families c -> dyk_feasible c Y -> (1 <= n)%nat ->
+  let sh := k_shape c in
+  exists k, (k < n)%nat /\
+    dyk_moves sh (group_ops c) (dyk_loop sh (group_ops c) k (W0, [])) * qnat n <= dist2 sh W0 Y.
+Proof. exact dykstra_stalls. Qed.
+Print Assumptions C08_dykstra_stalls.
+
+(* a sweep of the model without movement reproduces every stored change
+   (distinct keys): the hypothesis of C08_sweep_fixpoint_nearest *)
+Theorem C08_stalled_sweep_is_fixpoint :
+  forall sh (ops : list (key * (tens -> tens))) (st : tens * list (key * tens)),
+  NoDup (map fst ops) -> dyk_moves sh ops st <= 0 ->
+  teq sh (fst (dyk_sweep sh ops st)) (fst st) /\
+  forall kop, In kop ops -> teq sh (lc_get (snd (dyk_sweep sh ops st)) (fst kop)) (lc_get (snd st) (fst kop)).
+Proof. exact dyk_moves_zero_fixpoint. Qed.
+Print Assumptions C08_stalled_sweep_is_fixpoint.
+
+(* ... hence: if the sweep after n sweeps does not move, the kernel is feasible
+   and the Euclidean-nearest feasible kernel to W0 *)
+Theorem C08_dykstra_stalled_nearest : forall (c : dyk_cfg) (W0 : tens) (n : nat),
+  dyk_cfg_ok c -> exact_families c -> trap_sizes_ok c ->
+  NoDup (k_edge c) -> NoDup (k_trap c) -> NoDup (k_mdom c) -> NoDup (k_jmono c) ->
+  let sh := k_shape c in
+  let st := dyk_loop sh (group_ops c) n (W0, []) in
+  dyk_moves sh (group_ops c) st <= 0 ->
+  dyk_feasible c (fst st) /\
+  forall z, dyk_feasible c z -> dist2 sh W0 (fst st) <= dist2 sh W0 z.
+Proof. exact dykstra_stalled_nearest. Qed.
+Print Assumptions C08_dykstra_stalled_nearest.
